@@ -347,6 +347,32 @@ func (ts *TermStore) app(op Op, w int, p1, p2 int, args ...*Term) *Term {
 		if args[0] == args[1] {
 			return ts.BV(0, w)
 		}
+	case OpUDiv, OpURem, OpSDiv, OpSRem:
+		if args[1].IsConst() && args[1].cval != 0 && args[1].cval&(args[1].cval-1) == 0 && sext64(args[1].cval, w) > 0 {
+			k := bits.TrailingZeros64(args[1].cval)
+			x := args[0]
+			if k == 0 {
+				if op == OpUDiv || op == OpSDiv {
+					return x
+				}
+				return ts.BV(0, w)
+			}
+			kc := ts.BV(uint64(k), w)
+			switch op {
+			case OpUDiv:
+				return ts.app(OpLShr, w, 0, 0, x, kc)
+			case OpURem:
+				return ts.app(OpAnd, w, 0, 0, x, ts.BV(args[1].cval-1, w))
+			case OpSDiv, OpSRem:
+				sign := ts.app(OpAShr, w, 0, 0, x, ts.BV(uint64(w-1), w))
+				bias := ts.app(OpLShr, w, 0, 0, sign, ts.BV(uint64(w-k), w))
+				q := ts.app(OpAShr, w, 0, 0, ts.app(OpAdd, w, 0, 0, x, bias), kc)
+				if op == OpSDiv {
+					return q
+				}
+				return ts.app(OpSub, w, 0, 0, x, ts.app(OpShl, w, 0, 0, q, kc))
+			}
+		}
 	case OpMul:
 		if args[0].IsConst() {
 			args[0], args[1] = args[1], args[0]
@@ -913,8 +939,12 @@ func (ts *TermStore) HasHardArith(terms []*Term) (div bool, fp bool) {
 		}
 		seen[t.id] = true
 		switch t.op {
-		case OpUDiv, OpURem, OpSDiv, OpSRem, OpMul:
+		case OpUDiv, OpURem, OpSDiv, OpSRem:
 			div = true
+		case OpMul:
+			if !t.args[0].IsConst() && !t.args[1].IsConst() {
+				div = true
+			}
 		case OpFFromS, OpFFromU, OpFToS, OpFToU, OpFAdd, OpFSub, OpFMul, OpFDiv, OpFCeil, OpFFloor, OpFLt, OpFLe, OpFEq, OpFNeg:
 			fp = true
 		}
